@@ -65,6 +65,36 @@ def priors():
                 ])
             yield f'nested_{cd}_{ce}', nested
 
+    def wrong_size_right_digest(nested):
+        # digests of the current content but a wrong size (a change-detection that only looks at digests misses it)
+        def bad(p, rel):
+            e = rm.file_entry('DATA', rel, B[p], H1)
+            return ('E', (e[0], e[1], e[2] + 7, e[3]))
+        if not nested:
+            return Scenario(B, [MSpec(TOP, [_F(p) for p in sorted(B) if p != 'd/f1'] + [bad('d/f1', 'd/f1')])])
+        return Scenario(B, [
+            MSpec(TOP, [_F('f0'), _F('g/f3'), _F('dx/f5'), _F('d.txt'), ('M', 'd/Manifest', H1)]),
+            MSpec('d/Manifest', [bad('d/f1', 'f1'), _F('d/e/f2')]),
+        ])
+    yield 'wrong_size_right_digest', lambda: wrong_size_right_digest(False)
+    yield 'wrong_size_right_digest_nested', lambda: wrong_size_right_digest(True)
+
+    def stale_child_accurate_parent_dup():
+        # the deeper Manifest holds a stale entry (old size, old digest), the parent an accurate duplicate
+        return Scenario(B, [
+            MSpec(TOP, [_F('f0'), _F('g/f3'), _F('dx/f5'), _F('d.txt'), _F('d/f1'), ('M', 'd/Manifest', H1)]),
+            MSpec('d/Manifest', [('E', rm.file_entry('DATA', 'f1', b'OLDER', H1)), _F('d/e/f2')]),
+        ])
+    yield 'stale_child_accurate_parent_dup', stale_child_accurate_parent_dup
+
+    def stale_child_accurate_parent_dup_samesize():
+        # as above, but the stale entry records the right size (content changed keeping its length)
+        return Scenario(B, [
+            MSpec(TOP, [_F('f0'), _F('g/f3'), _F('dx/f5'), _F('d.txt'), _F('d/f1'), ('M', 'd/Manifest', H1)]),
+            MSpec('d/Manifest', [('E', rm.file_entry('DATA', 'f1', b'ONE', H1)), _F('d/e/f2')]),
+        ])
+    yield 'stale_child_accurate_parent_dup_samesize', stale_child_accurate_parent_dup_samesize
+
     def nested_stale_subentry():
         # the sub-Manifest was edited by hand (lines swapped): valid, but the parent's MANIFEST entry is stale
         sc = Scenario(B, [
@@ -155,6 +185,22 @@ def priors():
     yield 'entry_names_directory', entry_is_dir
 
 
+    HOSTILE = {'b c': b'space', '\u00fc': b'umlaut', 'b\\': b'backslash', 'd \u00e9/x\ty': b'tab in name',
+               'd \u00e9/\u2028sep': b'line separator', 'q.x': b'', 'a\u0085b/\U0001f600': b'emoji under NEL dir'}
+
+    def hostile(listed):
+        # names that need escaping in the Manifest (space, tab, backslash, NEL, U+2028) or are non-ASCII
+        if listed == 'all':
+            items = [_F(p) for p in sorted(HOSTILE)]
+        elif listed == 'stale':
+            items = [('E', rm.file_entry('DATA', p, b'OLD' + HOSTILE[p], H1)) for p in sorted(HOSTILE)]
+        else:
+            items = []
+        return Scenario(HOSTILE, [MSpec(TOP, items)])
+    yield 'hostile_names_listed', lambda: hostile('all')
+    yield 'hostile_names_stale', lambda: hostile('stale')
+    yield 'hostile_names_unlisted', lambda: hostile('none')
+
     def tags_rich():
         files = dict(B)
         files.update({'files/aux1': b'aux', 'p-1.ebuild': b'eb', 'metadata.xml': b'<x/>', 'out/o1': b'outside'})
@@ -166,7 +212,10 @@ def priors():
                         ('L', 'IGNORE ign'), ('L', 'IGNORE ign2'),
                         ('L', 'TIMESTAMP 2017-01-01T00:00:00Z')]),
             MSpec('d/Manifest.gz', [('F', 'MISC', 'd/f1', H1), ('F', 'EBUILD', 'd/e/f2', H1),
-                                    ('L', 'DIST c.tar 3 SHA1 ' + 'c' * 40), ('L', 'IGNORE e/ign3')]),
+                                    ('L', 'DIST c.tar 3 SHA1 ' + 'c' * 40), ('L', 'IGNORE e/ign3'),
+                                    # distfile names that coincide with local paths of this Manifest
+                                    ('L', 'DIST f1 3 SHA1 ' + 'd' * 40), ('L', 'DIST gone.tar 9 SHA1 ' + 'e' * 40),
+                                    ('E', rm.file_entry('DATA', 'gone.tar', b'was here', H1))]),
         ], raw={'ign/junk': b'j'})
     yield 'tags_rich', tags_rich
 
